@@ -131,6 +131,9 @@ package litefs
 // the header is decoded before the lock is taken; `own` / `isSnap` freeze the two facts the protocol branches on
 //@   on call DB.AcquireWriteLock assert locked == 0 && arg0 == db ; then locked = (ret1 == nil ? 1 : 0), own = (hdr.NodeID == s.id), isSnap = (hdr.MinTXID == 1)
 //@   on call GuardSet.Unlock assert locked == 1 && arg0 == guardSet ; then locked = 2
+// the position a frame is compared with is read while the write lock is held (a value read earlier may be stale by the time
+// the lock is granted: another writer may have committed in between)
+//@   on call DB.Pos assert locked == 1 && arg0 == db
 //@   on call ltx.Decoder.Verify assert locked == 1 && !verified && (own ? hdr.NodeID == s.id && created == 0 : sought) ; then verified = (ret0 == nil)
 //@   on call os.File.Seek assert synced && !sought && arg0 == f && arg1 == 0 && arg2 == 0 ; then sought = (ret1 == nil)
 //@   on call io.Copy assert locked == 1 && (own ? verified && created == 0 : created == 1 && !copied) ; then copied = (!own && ret1 == nil)
